@@ -173,6 +173,22 @@ pub fn c03() -> SchedCampaign {
             Family { weight: 2, params: inv("invalid-60", 60, 25) },
             Family { weight: 2, params: inv("invalid-10-nonce-off", 10, 100) },
             Family { weight: 2, params: inv("conditional-validity", 0, 0) },
+            Family {
+                weight: 4,
+                params: GenParams {
+                    family: "foreign-nonce-bumps",
+                    specs: PRAGUE_SPECS,
+                    n_eoa: 3,
+                    auth_pct: 40,
+                    pre_delegated: 2,
+                    hot_sender_pct: 50,
+                    forget_auth_bump_pct: 40,
+                    invalid_nonce_bias: true,
+                    nonce_check_off_pct: 0,
+                    mix: Mix { sload: 8, sstore: 8, call: 6, create: 4, slots: 3, vmax: 1000, ..Mix::default() },
+                    ..inv("foreign-nonce-bumps", 20, 0)
+                },
+            },
         ],
         profiles: ProfileWeights {
             focus_classes: &[Class::ExecStart, Class::Commit, Class::Dep, Class::Abort],
@@ -277,6 +293,21 @@ pub fn c09() -> SchedCampaign {
                     auth_pct: 45,
                     pre_delegated: 2,
                     hot_sender_pct: 20,
+                    ..GenParams::default()
+                },
+            },
+            Family {
+                weight: 3,
+                params: GenParams {
+                    family: "deployments-known-addresses",
+                    specs: ALL_SPECS,
+                    txs: (4, 14),
+                    n_eoa: 3,
+                    n_con: 2,
+                    mix: Mix { create: 12, extcode: 8, call: 6, sload: 6, sstore: 6, slots: 3, vmax: 2, ..Mix::default() },
+                    kind_w: [8, 1, 5, 10],
+                    hot_sender_pct: 40,
+                    derived_create_addrs: true,
                     ..GenParams::default()
                 },
             },
